@@ -7,6 +7,6 @@ R(n, c, cmd, t, pl) == [k |-> "recv", n |-> n, c |-> c, cmd |-> cmd, ack |-> 0, 
 Bad == [R(0, 0, 0, 0, P("short", <<>>)) EXCEPT !.k = "recvbad"]
 Alpha == << R(1, 255, 0, 17, P20), R(1, 0, 0, 6, Pa), R(1, 0, 1, 0, Pa), R(2, 0, 1, 0, Pa), R(1, 1, 1, 0, Pa),
             R(1, 255, 3, 99, PEmpty), R(1, 255, 3, 0, P57), R(1, 255, 3, 0, Pabc), R(255, 255, 3, 3, PEmpty), Bad >>
-St0(p) == [nodes |-> EmptyFn, ver |-> p, proto |-> p, metric |-> TRUE, setbuf |-> EmptyFn, asked |-> {}, held |-> {}]
+St0(p) == [nodes |-> EmptyFn, ver |-> p, proto |-> p, metric |-> TRUE, setbuf |-> EmptyFn, asked |-> {}, held |-> EmptyFn]
 Inits == << St0("1.4"), St0("2.0"), St0("2.2") >>
 =============================================================================
